@@ -30,6 +30,7 @@ struct RunCfg {
   std::string prog = "lbzip2";
   std::map<std::string, std::string> env;
   int ncpu = 4;
+  unsigned umask = 022;                   // file mode creation mask
   int nofile = 1024;                      // descriptor limit of the simulated process
   uint64_t inherit_mask = 0;              // signals blocked in the inherited mask
   bool ign_pipe = false, ign_xfsz = false;
